@@ -295,6 +295,23 @@ op_init(op_t *op)
 	memset(op, 0, sizeof *op);
 }
 
+static int eax_aad_straddle(const lctx *lc, const op_t *op);
+
+/* br_eax_get_aad_mac "may be called only after br_eax_flip()": right after it, after the data, or
+ * after the tag has been produced / checked (op->grab_post = 1, 2, 3) */
+static void
+eax_grab_post(lctx *lc, const op_t *op)
+{
+	memcpy(lc->st_post, lc->st_pre, sizeof(br_eax_state));
+	br_eax_get_aad_mac(lc->ctx, lc->st_post);
+	free(lc->post_aad);
+	lc->post_aad = vf_dup(op->aad, op->alen);
+	lc->post_aad_len = op->alen;
+	lc->have_post = 1;
+	lc->post_tainted = eax_aad_straddle(lc, op);
+	vf_distinct("eax_grab_point", "%d", op->grab_post);
+}
+
 /*
  * Input class "aad-straddle" (EAX only): one br_eax_aad_inject() call both
  * completes a partially filled 16-byte block and carries further bytes.
@@ -379,15 +396,7 @@ lib_process(lctx *lc, op_t *op)
 		case M_CCM: br_ccm_flip(lc->ctx); break;
 		default:
 			if (op->oop) (*oc)->flip(oc); else br_eax_flip(lc->ctx);
-			if (op->grab_post) {
-				memcpy(lc->st_post, lc->st_pre, sizeof(br_eax_state));
-				br_eax_get_aad_mac(lc->ctx, lc->st_post);
-				free(lc->post_aad);
-				lc->post_aad = vf_dup(op->aad, op->alen);
-				lc->post_aad_len = op->alen;
-				lc->have_post = 1;
-				lc->post_tainted = eax_aad_straddle(lc, op);
-			}
+			if (op->grab_post == 1) eax_grab_post(lc, op);
 			break;
 		}
 	}
@@ -413,6 +422,8 @@ lib_process(lctx *lc, op_t *op)
 		free(blk);
 		off += n;
 	}
+
+	if (lc->mode == M_EAX && op->variant != 2 && op->grab_post == 2) eax_grab_post(lc, op);
 
 	/* tag */
 	if (!op->check) {
@@ -467,6 +478,7 @@ lib_process(lctx *lc, op_t *op)
 		}
 		rv = r != 0;
 	}
+	if (lc->mode == M_EAX && op->variant != 2 && op->grab_post == 3) eax_grab_post(lc, op);
 	lc->nmsg ++;
 	vf_stat("lib_runs", 1);
 	return rv;
@@ -783,7 +795,7 @@ op_style(lctx *lc, vf_rng *r, op_t *op, const msg_t *m)
 	op->misalign = vf_below(r, 4) == 0 ? (int)vf_below(r, 16) : 0;
 	op->variant = pick_variant(lc, r, op->aad, op->alen, op->mlen);
 	if (op->variant != 0) op->oop = 0;
-	op->grab_post = lc->mode == M_EAX && op->variant != 2 && lc->have_pre && vf_below(r, 2) == 0;
+	op->grab_post = (lc->mode == M_EAX && op->variant != 2 && lc->have_pre && vf_below(r, 2) == 0) ? 1 + (int)vf_below(r, 3) : 0;
 }
 
 static const char *
